@@ -195,6 +195,35 @@ def run_history(args):
                                 query=[s, e, method])
                             break
         lo, hi = model.bounds()
+        # file-system state the writer did not produce: a valid but empty metadata file with an expected name at the
+        # old end of the channel (a recorder interrupted right after opening a new file leaves one): it describes no sample
+        import h5py
+
+        t_old = md.file_ts(lo, n, d, fc) - 3 * fc
+        if t_old >= 0:
+            ghost = os.path.join(mdir, md.relpath(md.first_of_ts(t_old, n, d), n, d, fc, sc, "meta"))
+            if not os.path.exists(ghost):
+                os.makedirs(os.path.dirname(ghost), exist_ok=True)
+                h5py.File(ghost, "w").close()
+                part["evaluations"] += 2
+                try:
+                    import contextlib
+                    import io
+
+                    with contextlib.redirect_stdout(io.StringIO()):  # (the reader prints a note about the file)
+                        rg = drf.DigitalMetadataReader(mdir)
+                        bg = tuple(rg.get_bounds())
+                        lg = [int(k) for k in rg.read_latest()]
+                    if bg != (lo, hi) or lg != [hi]:
+                        bad({"class": "empty_file_changes_answers"}, "with an empty %s present: get_bounds %r (samples span %r), read_latest %s" % (
+                            os.path.basename(ghost), bg, (lo, hi), lg))
+                except Exception as e:  # noqa: BLE001
+                    bad({"class": "empty_file_breaks_reader", "exc": type(e).__name__}, "with an empty %s present: %r" % (os.path.basename(ghost), e))
+                os.remove(ghost)
+                try:
+                    os.rmdir(os.path.dirname(ghost))
+                except OSError:
+                    pass
         # a query for a column no sample has (files aged beyond their cadence first): whatever it
         # returns or raises, every written sample must still be there afterwards
         for r_, d_, fs_ in os.walk(mdir):
